@@ -2154,4 +2154,291 @@ mod kani_verif {
         kani::cover!(r && e != o);
         kani::cover!(!r);
     }
+
+    //--- C26: object size arithmetic
+
+    /// An (uninitialised, never read) slice of exactly `len` bytes: the
+    /// size functions only look at `len()`.
+    fn sized_slice(len: usize) -> &'static [u8] {
+        if len == 0 {
+            return &[]
+        }
+        let layout = std::alloc::Layout::from_size_align(len, 1).unwrap();
+        unsafe {
+            let ptr = std::alloc::alloc(layout);
+            kani::assume(!ptr.is_null());
+            std::slice::from_raw_parts(ptr, len)
+        }
+    }
+
+    /// `min_object_size` is the exact sum header + name + meta + data and
+    /// `page_object_size` is the least multiple of the page size (256) not
+    /// below it, for all name and data lengths below 2^56. Consequently
+    /// neither `expect` in `write_object` can fire and the padding slice
+    /// `PAGE[..padding]` is in range.
+    #[kani::proof]
+    fn archive_object_sizes() {
+        let name_len: usize = kani::any();
+        let data_len: usize = kani::any();
+        kani::assume(name_len < (1 << 56));
+        kani::assume(data_len < (1 << 56));
+        let min = Archive::<M4>::min_object_size(name_len, data_len);
+        assert!(
+            min as u128
+            == ObjectHeader::SIZE as u128 + name_len as u128
+                + M4::SIZE as u128 + data_len as u128
+        );
+        let paged = Archive::<M4>::page_object_size(
+            sized_slice(name_len), sized_slice(data_len)
+        );
+        assert!(paged >= min);
+        assert!(paged % 256 == 0);
+        assert!(paged - min < 256);
+        // The two expressions of `write_object` with `head.size == paged`
+        // (the only value the callers ever pass):
+        let diff = paged.checked_sub(min);
+        assert!(diff.is_some());
+        let padding = usize::try_from(diff.unwrap());
+        assert!(padding.is_ok());
+        assert!(padding.unwrap() <= PAGE_SIZE);
+        // A freshly paged object always has room for its own header, which
+        // is what `fits` and `publish_replace` rely on.
+        assert!(paged >= ObjectHeader::SIZE);
+        kani::cover!(paged == min);
+        kani::cover!(paged - min == 255);
+        kani::cover!(name_len == (1 << 56) - 1 && data_len == (1 << 56) - 1);
+    }
+
+    /// `publish_replace`: if the object fits into the empty space (the
+    /// condition `find_empty` selects by) then either nothing is left over
+    /// or what is left over satisfies the `assert!` there.
+    #[kani::proof]
+    fn archive_replace_remainder() {
+        let start: u64 = kani::any();
+        let empty_size: u64 = kani::any();
+        let object_size: u64 = kani::any();
+        kani::assume(start <= u64::MAX / 4);
+        kani::assume(empty_size <= u64::MAX / 4);
+        kani::assume(object_size <= u64::MAX / 4);
+        kani::assume(Archive::<M4>::fits(empty_size, object_size));
+        let empty_end = start + empty_size;
+        let object_end = start + object_size;
+        assert!(empty_end >= object_end);
+        if empty_end > object_end {
+            assert!(empty_end - object_end >= ObjectHeader::SIZE);
+        }
+        kani::cover!(empty_end > object_end);
+        kani::cover!(empty_end == object_end);
+    }
+
+    //--- C26: the append index
+
+    /// `AppendIndex::{get, set}` never index out of range, for any hash,
+    /// and `get` returns what `set` stored for the same hash.
+    #[kani::proof]
+    fn append_index_in_range() {
+        let mut index = AppendIndex::new();
+        let hash: u64 = kani::any();
+        let value: u64 = kani::any();
+        assert!(index.get(hash).is_none());
+        index.set(hash, NonZeroU64::new(value));
+        assert!(index.get(hash) == NonZeroU64::new(value));
+        assert!(index.bucket_count() == DEFAULT_BUCKET_COUNT);
+        kani::cover!(hash >= DEFAULT_BUCKET_COUNT as u64 && value != 0);
+        kani::cover!(hash as usize % DEFAULT_BUCKET_COUNT == 1023);
+    }
+
+    //--- C26: memory map slice bounds
+
+    /// The layout `Mmap` is expected to have (its fields are private to
+    /// `mmapimpl`). `mmap_over` checks the expectation and fails if the
+    /// compiler chose another layout.
+    #[repr(C)]
+    struct RawMmap {
+        ptr: std::ptr::NonNull<std::ffi::c_void>,
+        len: usize,
+    }
+
+    /// An `Mmap` over `len` bytes starting at `ptr`, never unmapped.
+    fn mmap_over(
+        ptr: *mut u8, len: usize
+    ) -> mem::ManuallyDrop<mmapimpl::Mmap> {
+        assert!(
+            mem::size_of::<mmapimpl::Mmap>() == mem::size_of::<RawMmap>()
+        );
+        let raw = RawMmap {
+            ptr: std::ptr::NonNull::new(
+                ptr as *mut std::ffi::c_void
+            ).unwrap(),
+            len
+        };
+        let res = mem::ManuallyDrop::new(unsafe {
+            mem::transmute::<RawMmap, mmapimpl::Mmap>(raw)
+        });
+        // Fails if the fields are laid out the other way round.
+        assert!(res.size() == usize_to_u64(len));
+        res
+    }
+
+    /// A fresh allocation of `len` bytes (`len > 0`).
+    fn alloc_bytes(len: usize) -> *mut u8 {
+        let layout = std::alloc::Layout::from_size_align(len, 1).unwrap();
+        let ptr = unsafe { std::alloc::alloc(layout) };
+        kani::assume(!ptr.is_null());
+        ptr
+    }
+
+    /// `Mmap::read(start, len)` for any mapped size below 2^40 and any
+    /// `start: u64`, `len: usize`: succeeds iff `start + len` does not
+    /// exceed the mapped size (computed without overflow), never slices
+    /// out of bounds, and returns exactly the bytes `start .. start+len`.
+    #[kani::proof]
+    fn mmap_read_bounds() {
+        let map_len: usize = kani::any();
+        kani::assume(map_len > 0 && map_len < (1 << 40));
+        let base = alloc_bytes(map_len);
+        let mmap = mmap_over(base, map_len);
+        let start: u64 = kani::any();
+        let len: usize = kani::any();
+        let res = mmap.read(start, len);
+        let fits = start as u128 + len as u128 <= map_len as u128;
+        assert!(res.is_ok() == fits);
+        if let Ok((slice, end)) = res {
+            assert!(slice.len() == len);
+            assert!(end == start + len as u64);
+            assert!(
+                slice.as_ptr() as usize == base as usize + start as usize
+            );
+            assert!(matches!(slice, Cow::Borrowed(_)));
+        }
+        kani::cover!(fits && len > 0 && start > 0);
+        kani::cover!(fits && start as usize + len == map_len && len > 0);
+        kani::cover!(fits && start as usize == map_len);
+        kani::cover!(!fits && (start as usize) < map_len);
+        kani::cover!(!fits && start > u64::MAX - 2 && len > 2);
+    }
+
+    /// `Mmap::write(start, data)` for any mapped size below 2^40, any
+    /// `start: u64` and data of any length below 2^40: succeeds iff
+    /// `start + data.len()` does not exceed the mapped size, never slices
+    /// or copies out of bounds, writes exactly `data` at `start` and
+    /// leaves every other mapped byte unchanged.
+    #[kani::proof]
+    fn mmap_write_bounds() {
+        let map_len: usize = kani::any();
+        kani::assume(map_len > 0 && map_len < (1 << 40));
+        let base = alloc_bytes(map_len);
+        let mut mmap = mmap_over(base, map_len);
+        let start: u64 = kani::any();
+        let data_len: usize = kani::any();
+        kani::assume(data_len < (1 << 40));
+        let data = sized_slice(data_len);
+        // One arbitrary mapped byte to observe.
+        let probe: usize = kani::any();
+        kani::assume(probe < map_len);
+        let before = unsafe { *base.add(probe) };
+        let res = mmap.write(start, data);
+        let fits = start as u128 + data_len as u128 <= map_len as u128;
+        assert!(res.is_ok() == fits);
+        let after = unsafe { *base.add(probe) };
+        match res {
+            Ok(end) => {
+                assert!(end == start + data_len as u64);
+                let start = start as usize;
+                if probe >= start && probe < start + data_len {
+                    assert!(after == data[probe - start]);
+                }
+                else {
+                    assert!(after == before);
+                }
+            }
+            Err(_) => assert!(after == before),
+        }
+        kani::cover!(fits && data_len > 1 && probe == start as usize + 1);
+        kani::cover!(fits && data_len > 0 && probe < start as usize);
+        kani::cover!(
+            fits && data_len > 0 && start as usize + data_len == map_len
+        );
+        kani::cover!(!fits && (start as usize) < map_len);
+        kani::cover!(!fits && start > u64::MAX - 2 && data_len > 2);
+    }
+
+    //--- C26: bucket selection
+
+    /// `hash_name` with a non-zero bucket count yields a bucket index
+    /// below the bucket count (and does not panic), for any hash key and
+    /// any name of up to 9 bytes (one full SipHash block plus a tail).
+    /// The fact itself (`x % n < n`) does not depend on the name.
+    #[kani::proof]
+    #[kani::unwind(11)]
+    fn hash_name_in_range() {
+        let meta = ArchiveMeta {
+            hash_key: kani::any(),
+            bucket_count: kani::any(),
+        };
+        kani::assume(meta.bucket_count != 0);
+        let bytes: [u8; 9] = kani::any();
+        let len: usize = kani::any();
+        kani::assume(len <= 9);
+        let hash = meta.hash_name(&bytes[..len]);
+        assert!(hash < usize_to_u64(meta.bucket_count));
+        kani::cover!(len == 9 && hash > 0);
+        kani::cover!(len == 0);
+        kani::cover!(meta.bucket_count == 1);
+        kani::cover!(meta.bucket_count == usize::MAX);
+    }
+
+    //--- C26: index positions
+
+    /// An archive value over the given (optional) memory map. The file
+    /// handle is a placeholder that is never used and never closed.
+    fn archive_over(
+        mmap: Option<mmapimpl::Mmap>, size: u64, meta: ArchiveMeta
+    ) -> mem::ManuallyDrop<Archive<M4>> {
+        use std::os::fd::FromRawFd;
+        let file = unsafe { fs::File::from_raw_fd(3) };
+        mem::ManuallyDrop::new(Archive {
+            file: Storage {
+                file: Mutex::new(file),
+                mmap,
+                writable: false,
+                size
+            },
+            meta,
+            marker: PhantomData,
+        })
+    }
+
+    /// The index slots: for any bucket count below 2^56 the index size is
+    /// `(buckets + 1) * 8` without overflow, the slot of every hash below
+    /// the bucket count and the slot of the empty chain lie inside the
+    /// index area behind magic cookie and archive meta, the empty slot is
+    /// the last one, and two slots overlap only if the hashes are equal.
+    #[kani::proof]
+    fn archive_index_positions() {
+        let meta = ArchiveMeta {
+            hash_key: [0; 16],
+            bucket_count: kani::any(),
+        };
+        kani::assume(meta.bucket_count < (1 << 56));
+        let buckets = usize_to_u64(meta.bucket_count);
+        let index_size = Archive::<M4>::index_size(&meta);
+        assert!(index_size == (buckets + 1) * 8);
+        let archive = archive_over(None, 0, meta);
+        let index_start = usize_to_u64(MAGIC_SIZE) + ArchiveMeta::size();
+        assert!(index_start == 6 + 16 + 8);
+        let index_end = index_start + index_size;
+        let h1: u64 = kani::any();
+        let h2: u64 = kani::any();
+        kani::assume(h1 < buckets && h2 < buckets);
+        let p1 = archive.index_pos(h1);
+        let p2 = archive.index_pos(h2);
+        let pe = archive.empty_index_pos();
+        assert!(p1 >= index_start && p1 + 8 <= pe);
+        assert!(pe + 8 == index_end);
+        assert!((p1 < p2 + 8 && p2 < p1 + 8) == (h1 == h2));
+        assert!(p1 == index_start + 8 * h1);
+        kani::cover!(h1 != h2);
+        kani::cover!(h1 + 1 == buckets && buckets > 1);
+    }
 }
